@@ -656,6 +656,16 @@ def c16_cases(seed=0):
     ps = dict(ops=ops, pops={"a": dict(ops=["op"], n=3, params={"op/tau": het(3, 1.0, 3.0), "op/r": het(3, -0.5, 0.5)})},
               conns=[dict(src="a/op/r", tgt="a/op/r_in", W=W(3, 3, 0.2), edge=dict(two_eq, map={"x_pre": "source"}))])
     out.append(("P7b-coupling-edge-two-equations", dict(coupling=True), ps))
+    # the coupling written as TWO chained edge operators, declared output-operator first / in evaluation order
+    chain = dict(name="c2o", eqs=[["dx", "alg", ["-", V("x_s"), V("x_t")]], ["s", "alg", ["*", V("kk"), ["call", "sin", V("dx")]]]],
+                 vars={"s": ["output", 0.0], "dx": ["state", 0.0], "x_s": ["input", 0.0], "x_t": ["input", 0.0], "kk": ["const", 0.8]})
+    d_op = dict(name="d_op", eqs=[chain["eqs"][0]], vars={"dx": ["output", 0.0], "x_s": ["input", 0.0], "x_t": ["input", 0.0]})
+    g_op = dict(name="g_op", eqs=[chain["eqs"][1]], vars={"s": ["output", 0.0], "dx": ["input", 0.0], "kk": ["const", 0.8]})
+    for order, tagx in (([g_op, d_op], "output-operator-first"), ([d_op, g_op], "evaluation-order")):
+        ps = dict(ops=ops, pops={"a": dict(ops=["op"], n=3, params={"op/tau": het(3, 1.0, 3.0), "op/r": het(3, -0.5, 0.5)}),
+                                 "b": dict(ops=["tg"], n=2, params={"tg/v": het(2, -0.5, 0.5)})},
+                  conns=[dict(src="a/op/r", tgt="b/tg/u", W=W(2, 3, 0.0), edge=dict(chain, ops_split=order, map={"x_s": "source", "x_t": "b/tg/v"}))])
+        out.append((f"P7g-coupling-edge-two-chained-operators-{tagx}", dict(coupling=True, chained=True), ps))
     # coupling edge between two populations whose post-synaptic variable has the SAME name as the source variable
     ps = dict(ops=ops, pops={"a": dict(ops=["op"], n=3, params={"op/r": het(3, -0.5, 0.5)}),
                              "c": dict(ops=["op"], n=3, params={"op/r": het(3, -0.5, 0.5), "op/tau": 3.0})},
